@@ -73,12 +73,11 @@ Example:
     >>> term = When( VTR() )
     >>> term(solver)  # where solver is a mystic.solver instance
     """
-    if isinstance(arg, tuple) and len(arg) == 1: arg = arg[0] # for pickling
+    if _type(arg) is tuple and len(arg) == 1: arg = arg[0] # for pickling
     #XXX: need better filter on inputs
     if getattr(arg, '__module__', None) != self.__module__:
       raise TypeError("'%s' object is not a condition" % arg.__class__.__name__)
-    if not getattr(arg, '__len__', None): arg = [arg]
-    return tuple.__new__(self, arg)
+    return tuple.__new__(self, [arg]) #NOTE: And, Or, ... are a single member
 
   def __call__(self, solver, info=False):
     """check if the termination conditions are satisfied.
@@ -119,9 +118,8 @@ Example:
     >>> term = And( VTR(), ChangeOverGeneration() )
     >>> term(solver)  # where solver is a mystic.solver instance
     """
-    if isinstance(args, tuple) and len(args) == 1: args = args[0] # for pickling
+    if len(args) == 1 and _type(args[0]) in (tuple, list): args = args[0] # for pickling
     #XXX: need better filter on inputs
-    if not getattr(args, '__len__', None): args = [args]
     #XXX: check if every arg in args has __module__ == self.__module__ ?
     return tuple.__new__(self, args)
 
@@ -143,9 +141,8 @@ Example:
     >>> term = Or( VTR(), ChangeOverGeneration() )
     >>> term(solver)  # where solver is a mystic.solver instance
     """
-    if isinstance(args, tuple) and len(args) == 1: args = args[0] # for pickling
+    if len(args) == 1 and _type(args[0]) in (tuple, list): args = args[0] # for pickling
     #XXX: need better filter on inputs
-    if not getattr(args, '__len__', None): args = [args]
     #XXX: check if every arg in args has __module__ == self.__module__ ?
     return tuple.__new__(self, args)
 
